@@ -109,6 +109,28 @@ def check(ctx: Ctx) -> None:
         else:
             ctx.violation("R8.1", f"{site}:frequencies", mod, c, f"{site}: frequencies are {f_t[:80]}, not the unmasked frequencies of the input data set")
         B = T(kw["impedances"])
+        # where the result also carries the circuit: the reported impedances are that circuit's response at the reported
+        # frequencies (every reaching definition of them), not a response remembered from elsewhere
+        if "circuit" in kw:
+            C_t = T(kw["circuit"])
+            ctx.instance("R8.1", f"{site}: impedances = response of the reported circuit at the reported frequencies")
+            B_all = RES(kw["impedances"])
+            alts_ = list(B_all.args) if isinstance(B_all, ast.Call) and isinstance(B_all.func, ast.Name) and B_all.func.id == "phi" else [B_all]
+            okc = True
+            bad_alt = ""
+            for alt in alts_:
+                t_ = ast.unparse(alt)
+                F_ok = [f_t] + sorted(FREQ_OK)
+                forms = [f"{C_t}.get_impedances({F})" for F in F_ok] + [f"simulate_spectrum({C_t}, {F}).get_impedances()" for F in F_ok] \
+                    + [f"simulate_spectrum({C_t}, {F}, label='').get_impedances()" for F in F_ok]
+                if t_ not in forms:
+                    okc = False
+                    bad_alt = t_
+            if okc:
+                ctx.ok()
+            else:
+                ctx.violation("R8.1", f"{site}:impedances-source", mod, kw["impedances"],
+                              f"{site}: the reported impedances can be {bad_alt[:90]}, which is not the response of the reported circuit ({C_t[:50]}) at the reported frequencies")
         # residuals
         rv = RES(kw["residuals"])
         ctx.instance("R8.1", f"{site}: residuals = {norm(kw['residuals'])[:60]}")
@@ -128,7 +150,23 @@ def check(ctx: Ctx) -> None:
         pv0 = kw["pseudo_chisqr"]
         pv = RES(pv0)
         ctx.instance("R8.1", f"{site}: pseudo_chisqr = {norm(pv0)[:60]}")
-        if isinstance(pv, ast.Call) and dotted(pv.func) == "_calculate_pseudo_chisqr":
+        def _alts(node):
+            return list(node.args) if isinstance(node, ast.Call) and isinstance(node.func, ast.Name) and node.func.id == "phi" else [node]
+        B_node = RES(kw["impedances"])
+        pv_alts, B_alts = _alts(pv), _alts(B_node)
+        if len(pv_alts) > 1 and len(pv_alts) == len(B_alts) and all(isinstance(x, ast.Call) and dotted(x.func) == "_calculate_pseudo_chisqr" for x in pv_alts):
+            # the value and the model impedances are (re)computed together on each of several paths: pair them path by path
+            bad_i = None
+            for x, b_ in zip(pv_alts, B_alts):
+                a = call_args(x, chi_fi.node)
+                w = a.get("weight")
+                if ast.unparse(a["Z_exp"]) not in IMP_OK or ast.unparse(a["Z_fit"]) != ast.unparse(b_) or (w is not None and not (isinstance(w, ast.Constant) and w.value is None)):
+                    bad_i = (ast.unparse(a["Z_exp"]), ast.unparse(a["Z_fit"]), ast.unparse(b_))
+            if bad_i is None:
+                ctx.ok()
+            else:
+                ctx.violation("R8.1", f"{site}:chisqr-model", mod, pv0, f"{site}: on one path the pseudo chi-squared is computed from ({bad_i[0][:50]}, {bad_i[1][:50]}) while the result reports {bad_i[2][:50]}")
+        elif isinstance(pv, ast.Call) and dotted(pv.func) == "_calculate_pseudo_chisqr":
             a = call_args(pv, chi_fi.node)
             A_t, B_t = ast.unparse(a["Z_exp"]), ast.unparse(a["Z_fit"])
             w = a.get("weight")
